@@ -13,10 +13,11 @@
 (*   exemplars[j] = [lrefs, v, t]                                          *)
 (* refs are 0-based; samples / hists are opaque (sequences of integers).   *)
 (***************************************************************************)
-EXTENDS Naturals, Sequences, FiniteSets
+EXTENDS Integers, Sequences, FiniteSets
 
 (* ======================= property level ======================= *)
-InRange(symbols, r) == r < Len(symbols)
+(* traces write a huge uint32 reference as a negative number (-1 = 4294967295: TLC integers are 32 bit) *)
+InRange(symbols, r) == r >= 0 /\ r < Len(symbols)
 PairCount(refs) == Len(refs) \div 2
 (* the references that have to be looked up to build the labels *)
 PairedRefs(refs) == { refs[i] : i \in 1..(2 * PairCount(refs)) }
